@@ -60,6 +60,14 @@ def control_alphabet(skel):
     return A
 
 
+def chatter(a, b):
+    """two controls on one link with opposite commands and conditions that flip at the same tank level: no hysteresis, the
+    link toggles every few seconds once the level sits on the threshold (a run of thousands of partial steps) - ill-posed
+    control sets, kept out of the space"""
+    return (a["link"] == b["link"] and a["kind"] == b["kind"] == "level" and a["thr"] == b["thr"] and a["rel"] != b["rel"]
+            and (a.get("attr", "status"), a["value"]) != (b.get("attr", "status"), b["value"]))
+
+
 def cases(tier):
     out = []
     for skel, pat in itertools.product(("pumpfeed", "twosrc", "valve", "deadend"), DEM):
@@ -91,13 +99,39 @@ def cases(tier):
                     continue
             if tier == "thorough" and not hyst and pat not in DEM_PAIRS:
                 continue                      # all non-hysteresis pairs under two of the four demand patterns (run-time bound)
+            if chatter(a, b):
+                continue
             pairs.append([a, b])
         sets += pairs
         if tier == "thorough":
             B = [a for a in A if a["kind"] == "level" and a["thr"] in (1.5, 4.5)] + [a for a in A if a["kind"] == "pressure" and a["thr"] == 29.0 and a["link"] != "p3"]
             for tr in itertools.combinations(B, 3):
-                if len(set(x["link"] for x in tr)) >= 2:
+                if len(set(x["link"] for x in tr)) >= 2 and not any(chatter(x, y) for x, y in itertools.combinations(tr, 2)):
                     sets.append(list(tr))
+        # a status control and a setting / speed control on the same link with every order of two low priorities: the
+        # higher-priority command must be the reported one (a setting or speed command implies Active / Open)
+        SP = []
+        if skel in ("valve", "pumpfeed"):
+            tgt = "p2" if skel == "valve" else "src"
+            if skel == "valve":
+                setc = [a for a in A if a.get("attr") == "setting"]
+            else:
+                setc = [{"kind": "level", "node": "T", "rel": rel, "thr": L, "link": "src", "attr": "base_speed", "value": 1.0} for rel, L in ((">", 1.5), ("<", 4.5))] + \
+                       [{"kind": "pressure", "node": "J2", "rel": "<", "thr": 29.0, "link": "src", "attr": "base_speed", "value": 1.0}]
+            stat = [a for a in A if a["link"] == tgt and not a.get("attr") and (a["thr"] in (1.5, 4.5, 29.0) or tier == "thorough")]
+            for a in stat:
+                for b in setc:
+                    if chatter(a, b):
+                        continue
+                    for pr in ((3, 3), (2, 1), (1, 2)) + (((5, 3), (0, 3)) if tier == "thorough" else ()):
+                        SP.append(([a, b], pr))
+        for cs, pr in SP:
+            if tier == "thorough" and pat not in DEM_PAIRS and pr not in ((2, 1), (1, 2)):
+                continue
+            s = skeleton(skel, pat, H)
+            s["controls"] = [dict(c, prio=p, name="c%d" % i) for i, (c, p) in enumerate(zip(cs, pr))]
+            s["id"] = {"skel": skel, "pat": pat, "hyd": H, "cv": False, "controls": s["controls"]}
+            out.append(s)
         for cs in sets:
             for hyd in ((H, 900) if len(cs) == 1 else (H,)):
                 for cv in ((False, True) if skel != "valve" and len(cs) <= 2 and any(c["link"] == "p2" for c in cs) else (False,)):
@@ -121,6 +155,13 @@ def robust_true(c, v):
     if c["rel"] == ">":
         return v > c["thr"] + 1e-4
     return v < c["thr"] - 1e-4
+
+
+def possibly_true(c, v):
+    """not robustly false: true, or within the 1e-4 band of the threshold where either answer is legitimate"""
+    if c["rel"] == ">":
+        return v > c["thr"] - 1e-4
+    return v < c["thr"] + 1e-4
 
 
 def run_case(s):
@@ -154,7 +195,7 @@ def run_case(s):
                     continue
                 if (d.get("attr", "status"), d["value"]) == (c.get("attr", "status"), c["value"]):
                     continue
-                if robust_true(d, cond_value(r, d, i)) and d.get("prio", 3) >= c.get("prio", 3):
+                if possibly_true(d, cond_value(r, d, i)) and d.get("prio", 3) >= c.get("prio", 3):
                     conflict = True
             if conflict:
                 counts["exempt_conflict"] += 1
@@ -168,6 +209,10 @@ def run_case(s):
                     what = "setting %.6g reported, %.6g commanded" % (got, c["value"])
                 elif st == 0:
                     what = "valve reported closed although a setting was commanded"
+            elif c.get("attr") == "base_speed":
+                # the simulator ignores pump speeds, but like EPANET a speed command switches the pump on
+                if st == 0 and not (abs(q) < 1e-6 and (hb - ha) >= 4.0 / 3.0 * l["curve"][0][1] - 1e-2):
+                    what = "pump reported closed although a speed was commanded"
             elif c["value"] == "CLOSED":
                 if st != 0:
                     what = "reported status %g (not closed)" % st
@@ -185,6 +230,8 @@ def run_case(s):
                     what = "reported closed (flow %.3g, heads %.3f -> %.3f)" % (q, ha, hb)
             if what:
                 kind = "%s-%s:%s:%s" % (c["kind"], "above" if c["rel"] == ">" else "below", c.get("attr", "status") if c.get("attr") else c["value"].lower(), l["t"] + ("-cv" if l.get("cv") else ""))
+                if any(d is not c and d["link"] == c["link"] and d.get("prio", 3) != c.get("prio", 3) for d in ctr):
+                    kind += ":priorities-differ"
                 viol.append({"key": "inconsistent:%s" % kind, "what": "t=%d: control %s %s IF %s %s %s %g holds (value %.5f) but %s; controls %s" % (
                     t, c["link"], c["value"], c["node"], c["kind"], c["rel"], c["thr"], v, what, [_sh(x) for x in ctr])})
                 break
@@ -205,7 +252,15 @@ def run_case(s):
                 cur_, prev_ = float(r.link[key][c["link"]][i]), float(r.link[key][c["link"]][i - 1])
                 is_cmd = lambda x: (x == want) if want is not None else (x != 0.0)      # OPEN: any non-closed status
                 acted = is_cmd(cur_) and not is_cmd(prev_)
-                if now and before_false and acted:
+                # a conflicting control of equal or higher priority that may hold at the crossing (level == threshold) takes
+                # the crossing out of this control's hands: the change seen at step i then has another cause
+                blocked = False
+                for d in ctr:
+                    if d is c or d["link"] != c["link"] or (d.get("attr", "status"), d["value"]) == (c.get("attr", "status"), c["value"]):
+                        continue
+                    if d.get("prio", 3) >= c.get("prio", 3) and (d["kind"] != "level" or possibly_true(d, c["thr"])):
+                        blocked = True
+                if now and before_false and acted and not blocked:
                     counts["overshoot_checks"] += 1
                     allow = 2.0 * max(abs(float(qT[i])), abs(float(qT[i - 1]))) / area + 1e-6 + 1e-4
                     if abs(float(lev[i]) - c["thr"]) > allow:
